@@ -259,6 +259,7 @@ def delayedcall_method(eng, dc, attr, args, kwargs, fr, node):
 
 def looper_method(eng, lc, attr, args, kwargs, fr, node):
     from .engine import Unsupported
+    eng.B.checkpoint(eng, 'call:%s#%d' % (attr, site_ordinal(eng, node, attr)))
     if attr == 'start':
         n = eng.callcount.get('lcstart', 0) + 1
         eng.callcount['lcstart'] = n
